@@ -45,7 +45,16 @@ def run(prop, repo):
                         res['lines'].append((m.group(1), m.group(2), m.group(3)))
                 if 'falsifier finished' not in p.stdout:
                     res['error'] = 'falsifier did not finish (rc=%s): %s' % (p.returncode, (p.stderr or p.stdout)[-300:])
-            except subprocess.TimeoutExpired:
+            except subprocess.TimeoutExpired as te:
+                # discrepancies printed before the time limit are concrete failing executions all the same (stdout is line buffered)
+                out = te.stdout or ''
+                if isinstance(out, bytes):
+                    out = out.decode('utf-8', 'replace')
+                res['raw'] = out[-6000:]
+                for line in out.split('\n'):
+                    m = re.match(r'FALSIFIED (.*?) :: (.*) :: (.*)$', line)
+                    if m:
+                        res['lines'].append((m.group(1), m.group(2), m.group(3)))
                 res['error'] = 'falsifier timed out'
     except Exception as e:
         res['error'] = str(e)
